@@ -3,7 +3,7 @@
    `seesaw_grammar` is regenerated on every run from the runtime pyparsing element graph. *)
 From Coq Require Import List NArith.
 From DSD Require Import Base.Str Base.Errors Base.Val Model.Peg Model.DispatchPeg
-  Proofs.PegMono Proofs.PegStd Proofs.PegDoc Proofs.C13Base Proofs.C13Doc Proofs.C19Doc Proofs.C19Lex Proofs.C19Io Proofs.PegNum Proofs.C19Args Proofs.C19Stm Proofs.C19Rej Proofs.C19Ex Proofs.PegTerm Proofs.C13Fuel Proofs.PegCover Proofs.C13Cover.
+  Proofs.PegMono Proofs.PegStd Proofs.PegDoc Proofs.C13Base Proofs.C13Doc Proofs.C19Doc Proofs.C19Lex Proofs.C19Io Proofs.PegNum Proofs.C19Args Proofs.C19Stm Proofs.C19Rej Proofs.C19Rej2 Proofs.C19Ex Proofs.PegTerm Proofs.C13Fuel Proofs.PegCover Proofs.C13Cover.
 From DSDGen Require Import SeesawGrammar.
 Import ListNotations.
 
@@ -139,6 +139,55 @@ Theorem C19_no_skipped_text : forall fuel text p toks,
   parse_string_fuel seesaw_grammar fuel text = POk p toks -> p = Past /\ pieces seesaw_nodes (expandtabs text).
 Proof. exact seesaw_no_skipped_text. Qed.
 Print Assumptions C19_no_skipped_text.
+
+(* ---- wrong number / kind of arguments, the other statement kinds (for all numbers, names, list lengths,
+   blank layouts; `junk` is the rest of the document) ---- *)
+(* seesaw[N, {..} X  with X (after blanks) not a comma: the output list is missing *)
+Theorem C19_reject_seesaw_missing_list : forall n ins b1 b2 b3 b4 b5 junk pls b,
+  num_ok n -> nset_ok ins -> blanks ssw_ws b1 -> blanks ssw_ws b2 -> blanks ssw_ws b3 -> blanks ssw_ws b4 -> blanks ssw_ws b5 ->
+  nohead [44%N] (sspre junk) -> Forall ssw_blank_line pls -> blanks ssw_ws b ->
+  no_tab (concat pls ++ b ++ ss_missing_text n ins b1 b2 b3 b4 b5 junk) ->
+  exists f0, forall fu, f0 <= fu ->
+    parse_seesaw_fuel fu (concat pls ++ b ++ ss_missing_text n ins b1 b2 b3 b4 b5 junk) = err eParse.
+Proof. exact reject_seesaw_missing_list. Qed.
+Print Assumptions C19_reject_seesaw_missing_list.
+
+(* OUTPUT( X junk  with junk (after blanks) not ')': a second argument *)
+Theorem C19_reject_output_extra_argument : forall x b1 b2 b3 junk pls b,
+  ioname_ok x -> blanks ssw_ws b1 -> blanks ssw_ws b2 -> blanks ssw_ws b3 ->
+  nohead sidch junk -> nohead [41%N] (sspre junk) -> Forall ssw_blank_line pls -> blanks ssw_ws b ->
+  no_tab (concat pls ++ b ++ out_extra_text x b1 b2 b3 junk) ->
+  exists f0, forall fu, f0 <= fu -> parse_seesaw_fuel fu (concat pls ++ b ++ out_extra_text x b1 b2 b3 junk) = err eParse.
+Proof. exact reject_output_extra_argument. Qed.
+Print Assumptions C19_reject_output_extra_argument.
+
+(* inputfanout[N, X  with X (after blanks) not a digit: the fan-out is not a number *)
+Theorem C19_reject_inputfanout_fanout_kind : forall n b1 b2 b3 b4 junk pls b,
+  num_ok n -> blanks ssw_ws b1 -> blanks ssw_ws b2 -> blanks ssw_ws b3 -> blanks ssw_ws b4 ->
+  nohead sdigit (sspre junk) -> Forall ssw_blank_line pls -> blanks ssw_ws b ->
+  no_tab (concat pls ++ b ++ if_fanout_text n b1 b2 b3 b4 junk) ->
+  exists f0, forall fu, f0 <= fu -> parse_seesaw_fuel fu (concat pls ++ b ++ if_fanout_text n b1 b2 b3 b4 junk) = err eParse.
+Proof. exact reject_inputfanout_fanout_kind. Qed.
+Print Assumptions C19_reject_inputfanout_fanout_kind.
+
+(* conc[ g[..] | th[..] (both argument orders), X  with X not a digit: missing or negative concentration *)
+Theorem C19_reject_concentration_on_target : forall th t y junk pls b,
+  gate_ok t -> cc_layout_ok y -> nohead sdigit (sspre junk) -> Forall ssw_blank_line pls -> blanks ssw_ws b ->
+  no_tab (concat pls ++ b ++ badconc_target_text th t y junk) ->
+  exists f0, forall fu, f0 <= fu -> parse_seesaw_fuel fu (concat pls ++ b ++ badconc_target_text th t y junk) = err eParse.
+Proof. exact reject_concentration_on_target. Qed.
+Print Assumptions C19_reject_concentration_on_target.
+
+(* seesawOR / seesawAND [N, N, {..} X  with X not a comma: the second input list is missing *)
+Theorem C19_reject_logic_gate_few_arguments : forall k n m in1 b1 b2 b3 b4 b5 b6 b7 junk pls b,
+  num_ok n -> num_ok m -> nset_ok in1 ->
+  blanks ssw_ws b1 -> blanks ssw_ws b2 -> blanks ssw_ws b3 -> blanks ssw_ws b4 -> blanks ssw_ws b5 -> blanks ssw_ws b6 -> blanks ssw_ws b7 ->
+  nohead [44%N] (sspre junk) -> Forall ssw_blank_line pls -> blanks ssw_ws b ->
+  no_tab (concat pls ++ b ++ lg_few_text k n m in1 b1 b2 b3 b4 b5 b6 b7 junk) ->
+  exists f0, forall fu, f0 <= fu ->
+    parse_seesaw_fuel fu (concat pls ++ b ++ lg_few_text k n m in1 b1 b2 b3 b4 b5 b6 b7 junk) = err eParse.
+Proof. exact reject_logic_gate_few_arguments. Qed.
+Print Assumptions C19_reject_logic_gate_few_arguments.
 
 (* ---- not proved (listed under `partial` in the evidence): rejection of a wrong number / kind of
    arguments for the statement kinds other than reporter and of a bad concentration on gate /
